@@ -18,6 +18,9 @@ type secureSession struct {
 	decryptCount uint64
 
 	readEncrypted bool
+
+	// decryptErr is set when a frame failed authentication; nothing is decrypted after that
+	decryptErr error
 }
 
 // NewSecureSessionFromSharedKey returns a session from a shared private key.
@@ -89,6 +92,10 @@ func (s *secureSession) Encrypt(r io.Reader) (io.Reader, error) {
 
 // Decrypt returns the decrypted data
 func (s *secureSession) Decrypt(r io.Reader) (io.Reader, error) {
+	if s.decryptErr != nil {
+		return nil, s.decryptErr
+	}
+
 	var buf bytes.Buffer
 	for {
 		var length uint16
@@ -119,7 +126,8 @@ func (s *secureSession) Decrypt(r io.Reader) (io.Reader, error) {
 		decrypted, err := chacha20poly1305.DecryptAndVerify(s.decryptKey[:], nonce[:], b, mac, lengthBytes)
 
 		if err != nil {
-			return nil, fmt.Errorf("Data encryption failed %s", err)
+			s.decryptErr = fmt.Errorf("Data encryption failed %s", err)
+			return nil, s.decryptErr
 		}
 
 		buf.Write(decrypted)
